@@ -82,6 +82,9 @@ type scenario struct {
 	Position string `json:"position,omitempty"` // positions.go: where the unresolvable name sits
 	OwnRun   string `json:"own_run,omitempty"`  // "" = not run / ran fine; else the panic message of Run
 	OwnRunIR string `json:"own_run_ir,omitempty"`
+	// oracle: the file loads (a custom filter's name is resolved when the filter runs) and Run must stop with the resolution
+	// error -- ctx.GetType / ctx.GetInterface of a name that cannot be resolved panic (dsl documentation), they never answer
+	ORunPanic string `json:"o_run_panic,omitempty"` // the unresolvable name
 }
 
 type worldEntry struct {
@@ -902,6 +905,77 @@ func main() {
 	}
 	customMenu = append(customMenu, dottedCustom...)
 
+	// ---- names that cannot be resolved, in every resolver. T = a name the package does not declare: an ordinary identifier and
+	// every PREDECLARED identifier (types, constants, nil, builtin functions: `io.error` is not the universe's error); the
+	// package: a std package through the default table, a package bound by Import(), a fully-qualified path, an unknown package.
+	// Load-time resolvers (Implements, HasMethod): one request per file, the file must not load. Run-time resolvers (custom
+	// filters' GetType / GetInterface): the file loads, Run must stop with the resolution error (engines of their own).
+	predeclared := types.Universe.Names()
+	important := map[string]bool{"error": true, "string": true, "int": true, "any": true, "comparable": true, "true": true, "nil": true, "len": true, "byte": true}
+	unresolvableT := append([]string{"NoSuchName"}, predeclared...)
+	for k, n := range unresolvableT {
+		var qs []struct {
+			imps []string
+			q    reqT
+		}
+		add := func(imps []string, q reqT) {
+			qs = append(qs, struct {
+				imps []string
+				q    reqT
+			}{imps, q})
+		}
+		add(nil, iq("io", n))                      // std package through the default table
+		add([]string{afoo}, iq("foo", n))          // bound by Import()
+		add(nil, ifq("text/template", n))          // fully-qualified, std
+		add([]string{fio}, ifq(fio, n))            // fully-qualified, third party
+		add(nil, fr("fmt", n, "Error"))            // HasMethod, default table
+		add([]string{bfoo}, fr("foo", n, "Error")) // HasMethod, bound by Import()
+		add([]string{"io"}, fr("io", n, "Error"))  // HasMethod, std bound by Import()
+		add(nil, ifq("example.com/nosuch/pkg", n)) // unknown package
+		for j, x := range qs {
+			if !important[n] && n != "NoSuchName" && j != k%len(qs) {
+				continue
+			}
+			sc := mk(g(false, x.imps, iq("io", "Reader"), x.q, iq("io", "Writer")))
+			sc.Own = true
+			sc.Position = "unresolvable T " + n
+			scs = append(scs, sc)
+		}
+		type cq struct {
+			imps []string
+			cu   customT
+		}
+		cqs := []cq{
+			{nil, customT{"GetInterface", "io." + n, ""}},
+			{nil, customT{"GetType", "strings." + n, ""}},
+			{[]string{afoo}, customT{"GetInterface", afoo + "." + n, ""}},
+			{[]string{"io"}, customT{"GetType", fio + "." + n, ""}},
+			{nil, customT{"GetInterface", "example.com/nosuch/pkg." + n, ""}},
+			{[]string{fio}, customT{"GetType", "nosuchpkg." + n, ""}},
+		}
+		for j, x := range cqs {
+			if !important[n] && n != "NoSuchName" && j != k%len(cqs) {
+				continue
+			}
+			// a resolvable lookup of the same kind first: the run gets as far as the unresolvable one
+			first := customT{"GetInterface", "io.Reader", "ResIface io Reader"}
+			if x.cu.Call == "GetType" {
+				first = customT{"GetType", "example.com/a/foo.T", "ResType example.com/a/foo T"}
+			}
+			sc := mk(cg(x.imps, first), cg(x.imps, x.cu))
+			sc.Own = true
+			sc.ORunPanic = x.cu.FQN
+			scs = append(scs, sc)
+		}
+	}
+	// no dot at all / nothing after the dot: not a fully-qualified name
+	for _, cu := range []customT{{"GetInterface", "Reader", ""}, {"GetType", "Buffer", ""}, {"GetType", "strings.", ""}, {"GetInterface", "io.", ""}} {
+		sc := mk(cg(nil, cu))
+		sc.Own = true
+		sc.ORunPanic = cu.FQN
+		scs = append(scs, sc)
+	}
+
 	// ---- a qualified name in every position of a type pattern
 	for k, sh := range posShapes {
 		scs = append(scs, posLoadScenario(sh, k))
@@ -1093,6 +1167,9 @@ func main() {
 				op := "cident"
 				if cu.Call == "GetInterface" {
 					op = "impl"
+				}
+				if cu.Target == "" {
+					continue // unresolvable: nothing to report, Run must stop (o_run_panic)
 				}
 				sc.OTarget[fmt.Sprintf("%s_c%d", gr.Name, j)] = cu.Target
 				key := op + "||" + cu.Target
